@@ -336,6 +336,7 @@ def canary(tag, n):
     return out[:n]
 
 
+U_EQ, U_TWIN = 0xC0E0, 0xA0AA
 U_SAME = 0xC001
 U_LONG = 0xC002
 U_MIX = 0xC003
@@ -414,7 +415,12 @@ def build_c10_db(device, full=False):
     svc_p = Service(UUID("3A12C182-4AB6-4C8D-8A5B-0F2C1B7E00BB"), [Characteristic(u16(0xC042), P.READ, RW, b"p")])
     svc_last = Service(u16(0xA005), [Characteristic(u16(0xC043), P.READ | P.WRITE, RW, canary("last", 25))])
 
-    for s in (svc_a, svc_b, svc_c, svc_d, svc_e, svc_p, svc_last):
+    # many attributes of one type with one and the same value: Find By Type Value must stop filling at ATT_MTU
+    eq = [Characteristic(u16(U_EQ), P.READ, RW, canary("eq", 5)) for _ in range(14)]
+    svc_eq = Service(u16(0xA006), eq)
+    twins = [Service(u16(U_TWIN), [Characteristic(u16(0xC050 + i), P.READ, RW, canary(f"twin{i}", 2))]) for i in range(14)]
+
+    for s in (svc_a, svc_b, svc_c, svc_d, svc_e, svc_p, svc_eq, *twins, svc_last):
         device.add_service(s)
     # a service declaration that needs encryption (declarations are attributes like any other)
     svc_p.permissions = Attribute.READABLE | Attribute.READ_REQUIRES_ENCRYPTION
@@ -533,6 +539,8 @@ def shapes(db, mtu):
     add("find-same", "range-type-value", H(1) + H(0xFFFF) + H(U_SAME) + canary("same3", 7))
     add("find-prot", "range-type-value-protected", H(1) + H(0xFFFF) + H(U_PROT) + canary("prot1", 10))
     add("find-dyn", "range-type-value-callback", H(1) + H(0xFFFF) + H(U_DYN) + b"x")
+    add("find-eq-x14", "range-type-value-fill", H(1) + H(0xFFFF) + H(U_EQ) + canary("eq", 5))
+    add("find-twin-services-x14", "range-type-value-fill", H(1) + H(0xFFFF) + H(0x2800) + H(U_TWIN))
     add("find-none", "range-type-value", H(1) + H(0xFFFF) + H(0x2800) + b"\x00\x00")
     # handle lists
     add("list-small-x3", "list", H(h["small"]) + H(h["small2"]) + H(h["small"]))
